@@ -393,6 +393,10 @@ def _real_models():
     import torchtree.evolution.coalescent as co
     import torchtree.distributions.gmrf as gm
     import torchtree.evolution.bdsk as bd
+    import torchtree.distributions.scale_mixture as sm
+    import torchtree.distributions.bayesian_bridge as bb
+    import torchtree.distributions.ctmc_scale as cs
+    import torchtree.distributions.tree_prior as tp
     from torchtree.core.parameter import Parameter
     from specs import treemodels
     t64 = lambda v: torch.tensor(v, dtype=torch.float64)
@@ -401,12 +405,17 @@ def _real_models():
     tips = [0.0, 0.5, 0.0, 1.0]
     base = {"heights": t64([1.2, 2.0, 3.0]), "theta1": t64([2.0]), "theta3": t64([2.0, 3.0, 1.5]), "growth1": t64([0.3]), "growth3": t64([0.3, -0.5, 0.8]),
             "wshape": t64([0.7]), "winv": t64([0.2]), "wmu": t64([1.5]),
-            "field": t64([0.3, -0.2, 1.1]), "tau": t64([2.0]), "R": t64([1.5]), "delta": t64([1.0]), "s": t64([0.3]), "rho": t64([0.4]), "origin": t64([5.0])}
+            "field": t64([0.3, -0.2, 1.1]), "tau": t64([2.0]), "local3": t64([0.7, 1.4, 0.5]), "slab": t64([1.9]), "alpha": t64([0.6]), "rate1": t64([0.02]), "bl5": t64([0.1, 0.2, 0.15, 0.3, 0.05]), "cgd.alpha": t64([1.2]), "cgd.c": t64([0.8]), "cgd.shape": t64([1.5]), "cgd.rate": t64([2.0]), "R": t64([1.5]), "delta": t64([1.0]), "s": t64([0.3]), "rho": t64([0.4]), "origin": t64([5.0])}
     grid = t64([0.8, 2.1])
 
     def tm(v):
         return treemodels.build_timetree(tree, names, tips, v["heights"])[0]
     P = lambda n, v: Parameter(n, v[n])
+
+    def utm(v):
+        from torchtree.evolution.tree_model import UnRootedTreeModel, parse_tree
+        taxa = treemodels.make_taxa(names, [0.0] * 4)
+        return UnRootedTreeModel("utree", parse_tree(taxa, {"newick": "((A,B),C,D);"}), taxa, Parameter("bl", v["bl5"]))
     return base, {
         "ConstantCoalescentModel": (("heights", "theta1"), lambda v: co.ConstantCoalescentModel("m", P("theta1", v), tm(v))),
         "ExponentialCoalescentModel": (("heights", "theta1", "growth1"), lambda v: co.ExponentialCoalescentModel("m", P("theta1", v), P("growth1", v), tm(v))),
@@ -420,6 +429,15 @@ def _real_models():
         "WeibullSiteModel.probabilities": (("wshape", "winv", "wmu"), lambda v: _SiteEval(v, "probabilities")),
         "BDSKModel": (("heights", "R", "delta", "s", "rho", "origin"),
                       lambda v: bd.BDSKModel("m", tm(v), P("R", v), P("delta", v), P("s", v), rho=P("rho", v), origin=P("origin", v))),
+        # shrinkage / scale priors: hierarchical by construction (a global scale with its own prior above a field)
+        "ScaleMixtureNormal": (("field", "tau", "local3"), lambda v: sm.ScaleMixtureNormal("m", P("field", v), 0.0, P("tau", v), P("local3", v))),
+        "ScaleMixtureNormal.slab": (("field", "tau", "local3", "slab"), lambda v: sm.ScaleMixtureNormal("m", P("field", v), 0.0, P("tau", v), P("local3", v), P("slab", v))),
+        "BayesianBridge": (("field", "tau", "alpha"), lambda v: bb.BayesianBridge("m", P("field", v), P("tau", v), P("alpha", v))),
+        "BayesianBridge.local": (("field", "tau", "local3"), lambda v: bb.BayesianBridge("m", P("field", v), P("tau", v), local_scale=P("local3", v))),
+        "BayesianBridge.slab": (("field", "tau", "local3", "slab"), lambda v: bb.BayesianBridge("m", P("field", v), P("tau", v), local_scale=P("local3", v), slab=P("slab", v))),
+        "CTMCScale": (("rate1", "heights"), lambda v: cs.CTMCScale("m", P("rate1", v), tm(v))),
+        "CompoundGammaDirichletPrior": (("bl5", "cgd.alpha", "cgd.c", "cgd.shape", "cgd.rate"),
+                                        lambda v: tp.CompoundGammaDirichletPrior("m", utm(v), P("cgd.alpha", v), P("cgd.c", v), P("cgd.shape", v), P("cgd.rate", v))),
     }
 
 
@@ -493,7 +511,7 @@ def ob_real_model_sample_shapes():
                         if tuple(j.shape) != (S,) or not torch.allclose(j, want, rtol=1e-9, atol=1e-11):
                             bad.append("%s: joint returns %s (shape %s), per-sample values are %s" % (tag, j.tolist(), tuple(j.shape), want.tolist()))
         if bad:
-            raise Refuted("real models with partially batched inputs: " + " | ".join(bad[:3]), witness={"failures": bad[:10]},
+            raise Refuted("real models with partially batched inputs: " + " | ".join(bad[:3]), witness={"failures": bad[:10], "models": sorted({b.split(",")[0] for b in bad})},
                           replay={"kind": "custom", "contract": "C10", "func": "replay_real_model_sample_shapes", "args": {}}, confirmed=True)
         if n == 0:
             raise Undecided("no combination evaluated")
